@@ -463,8 +463,8 @@ pub mod rewrite {
     module_reference: &ModuleReference,
   ) -> Option<String> {
     let module = state.parsed_modules.get(module_reference)?;
-    let errors = state.errors.get(module_reference).unwrap();
-    if errors.iter().any(|e| e.is_syntax_error()) {
+    // Modules that never had errors have no entry.
+    if state.get_errors(module_reference).iter().any(|e| e.is_syntax_error()) {
       None
     } else {
       Some(samlang_printer::pretty_print_source_module(&state.heap, 100, module))
